@@ -72,6 +72,26 @@ func (c *Ctx) tagTest(cond ssa.Value, v ssa.Value) (int64, token.Token, bool) {
 		return k, bin.Op, true
 	}
 	if phi, ok := tv.(*ssa.Phi); ok {
+		// the value and its tag are both carried by merges of the same block: edge by edge, the tag is that
+		// of the value, or another constant where the value is nil
+		if vphi, ok := v.(*ssa.Phi); ok && vphi.Block() == phi.Block() && len(vphi.Edges) == len(phi.Edges) {
+			any, good := false, true
+			for i, e := range phi.Edges {
+				if isTypeCallOn(e, vphi.Edges[i]) {
+					any = true
+					continue
+				}
+				z, isK := constInt(e)
+				kv, isNil := vphi.Edges[i].(*ssa.Const)
+				if isK && z != k && isNil && kv.IsNil() {
+					continue
+				}
+				good = false
+			}
+			if any && good {
+				return k, bin.Op, true
+			}
+		}
 		any := false
 		for _, e := range phi.Edges {
 			if isTypeCallOn(e, v) {
@@ -199,4 +219,32 @@ func expandCond(ifi *ssa.If, cond ssa.Value, edge int, depth int) []ctrlCond {
 		// the block computing the operand is itself entered through the first operand's edge
 	}
 	return res
+}
+
+// edgeConds: the conditions known to hold when control goes from pred to succ: what controls pred, and
+// pred's own test when succ is exactly one of its two branches.
+func edgeConds(pred, succ *ssa.BasicBlock) []ctrlCond {
+	res := controlling(pred)
+	if ifi, ok := pred.Instrs[len(pred.Instrs)-1].(*ssa.If); ok && len(pred.Succs) == 2 && pred.Succs[0] != pred.Succs[1] {
+		for e := 0; e < 2; e++ {
+			if pred.Succs[e] == succ {
+				res = append(res, expandCond(ifi, ifi.Cond, e, 0)...)
+			}
+		}
+	}
+	return res
+}
+
+// tagExcludedOnEdge: value v is known not to have tag k when control goes from pred to succ.
+func (c *Ctx) tagExcludedOnEdge(v ssa.Value, k int64, pred, succ *ssa.BasicBlock) bool {
+	if c.tagExcludedAt(v, k, pred) {
+		return true
+	}
+	for _, cc := range edgeConds(pred, succ) {
+		kk, op, ok := c.tagTest(cc.Cond, v)
+		if ok && kk == k && (op == token.EQL) == (cc.Edge == 1) {
+			return true
+		}
+	}
+	return false
 }
